@@ -334,7 +334,7 @@ pub fn run(args: &Args) -> Report {
             }
         }
     }
-    let reps = if args.thorough { 3 } else { 1 };
+    let reps = if args.thorough { 12 } else { 3 };
     let mut idx = 0u64;
     for _ in 0..reps {
         for sc in &scs {
